@@ -90,9 +90,16 @@ func suValue(vseed int64, topic string, id int) any {
 		}
 		return &RoachSourceConfig{HostPort: hp, Rates: rates, AbacoUnwrapOptions: AbacoUnwrapOptions{RescaleRaw: true, Unwrap: r.Intn(2) == 0, ResetAfter: 1 + r.Intn(1000), PulseSign: 1}}
 	case "STATUS":
-		npre := 1 + r.Intn(2000)
+		npre := 3 + r.Intn(2000) // what ConfigurePulseLengths accepts: npre >= 3, at least one sample behind the trigger
+		if r.Intn(4) == 0 {
+			npre = 3 // the boundaries of that rule are legal values too
+		}
+		post := 1 + r.Intn(4000)
+		if r.Intn(4) == 0 {
+			post = 1
+		}
 		return ServerStatus{Running: r.Intn(2) == 0, SourceName: []string{"Triangles", "SimPulses", "Lancero", "Abaco"}[r.Intn(4)], Nchannels: r.Intn(100),
-			Nsamples: npre + 1 + r.Intn(4000), Npresamp: npre, SamplePeriod: time.Duration(1+r.Intn(100000)) * time.Nanosecond * 10,
+			Nsamples: npre + post, Npresamp: npre, SamplePeriod: time.Duration(1+r.Intn(100000)) * time.Nanosecond * 10,
 			ChanGroups: []GroupIndex{{Firstchan: r.Intn(10), Nchan: 1 + r.Intn(50)}}, ChannelsWithProjectors: ints(r.Intn(3), 50)}
 	case "WRITING":
 		return &WritingState{Active: r.Intn(2) == 0, Paused: r.Intn(2) == 0, BasePath: fmt.Sprintf("/data/run %d/äö", r.Intn(1000)), FilenamePattern: "x_chan%d.ljh",
@@ -671,6 +678,10 @@ func TestVerifStatusE2E(t *testing.T) {
 			drain()
 			rqCall(func() error { return ctl.ConfigureProjectorsBasis(&pbo, &ok) }, 5*time.Second)
 		}
+		lens := SizeObject{Nsamp: 41, Npre: 40} // a legal boundary: exactly one sample behind the trigger
+		if variant == "rejected-config" {
+			rqCall(func() error { return ctl.ConfigurePulseLengths(lens, &ok) }, 5*time.Second)
+		}
 		d := "x"
 		rqCall(func() error { return ctl.Stop(&d, &ok) }, 5*time.Second)
 		drain() // everything published so far has gone through the updater and reached the client
@@ -686,6 +697,9 @@ func TestVerifStatusE2E(t *testing.T) {
 		if variant == "rejected-config" {
 			// requests the sources REFUSE (error reply): what is saved for the next start-up must stay what the sources accepted
 			accepted["TRIANGLE"] = suCanon(accTri)
+			if ctl.status.Nsamples == lens.Nsamp && ctl.status.Npresamp == lens.Npre { // (the request was accepted)
+				accepted["STATUS"] = suCanon(map[string]any{"Npresamp": lens.Npre, "Nsamples": lens.Nsamp})
+			}
 			accepted["SIMPULSE"] = suCanon(&SimPulseSourceConfig{Nchan: 2, SampleRate: 20000, Pedestal: 1000, Amplitudes: []float64{3000}, Nsamp: 400})
 			if err := ctl.ConfigureTriangleSource(&TriangleSourceConfig{Nchan: 2, SampleRate: 30000, Min: 500, Max: 100}, &ok); err == nil {
 				rejected = append(rejected, "triangle min>max accepted")
